@@ -589,35 +589,20 @@ func r02_4(c *Ctx, rule string) {
 func modeBitTests(c *Ctx, fn *ssa.Function, x *eng.Explorer, bit int64) []string {
 	var keys []string
 	eng.Instrs(fn, func(in ssa.Instruction) {
-		bo, ok := in.(*ssa.BinOp)
-		if !ok || (bo.Op != token.EQL && bo.Op != token.NEQ) {
-			return
-		}
-		and, ok := bo.X.(*ssa.BinOp)
-		if !ok || and.Op != token.AND {
-			return
-		}
-		k, ok := eng.ConstInt(and.Y)
-		if !ok || k != bit {
-			return
-		}
-		rhs, ok := eng.ConstInt(bo.Y)
+		v, ok := in.(ssa.Value)
 		if !ok {
 			return
 		}
-		key := x.KeyAtEntry(bo)
-		// key is normalised to an EQL form, possibly negated. We want a key
-		// whose truth means "bit set".
-		switch {
-		case bo.Op == token.NEQ && rhs == 0: // (m&bit) != 0  -> key "!(..==0)"
-			keys = append(keys, key)
-		case bo.Op == token.EQL && rhs == bit: // (m&bit) == bit
-			keys = append(keys, key)
-		case bo.Op == token.EQL && rhs == 0: // (m&bit) == 0 -> negate
-			keys = append(keys, "!"+key)
-		case bo.Op == token.NEQ && rhs == bit:
-			keys = append(keys, "!"+key)
+		_, mask, setWhenTrue, isBT := eng.BitTest(v)
+		if !isBT || mask != bit {
+			return
 		}
+		// a key whose truth means "bit set"
+		key := x.KeyAtEntry(v)
+		if !setWhenTrue {
+			key = "!" + key
+		}
+		keys = append(keys, key)
 	})
 	return keys
 }
